@@ -412,6 +412,20 @@ impl crate::world::Adversary for HandshakeForger {
         if self.count >= self.max || now_us >= plan.end_us || !self.rng.chance(self.rate) {
             return;
         }
+        // a stale copy of a refusal that echoes the client's own nonce (as the server would have
+        // sent it had the client's first SYN met a full server), arriving once the connection is
+        // established
+        if let crate::world::Probe::Client(c) = _probe {
+            if c.state == 1 && self.rng.chance(0.3) {
+                if let (Some(n), EndpointKind::Client { server, .. }) = (c.local_nonce.or(self.syn.get(&ep).cloned()), &plan.endpoints[ep].kind) {
+                    self.count += 1;
+                    let dt = self.rng.below(200_000);
+                    let bytes = enc_hs_err(n, self.rng.below(3) as u8);
+                    out.push(TimedOp { t_us: now_us + dt, rank: DELIVER_RANK_PUB, op: Op::Inject { to: ep, from: *server, bytes, twin: false } });
+                    return;
+                }
+            }
+        }
         let clients: Vec<usize> = plan.endpoints.iter().enumerate().filter(|(_, e)| matches!(e.kind, EndpointKind::Client { .. })).map(|(i, _)| i).collect();
         if clients.is_empty() {
             return;
@@ -491,9 +505,40 @@ pub fn world_b_lifecycle(property: &str, scenario: &str, seed: u64, run: u64, th
         t += horizon / phases / 2;
     }
     let mut tag = 0u32;
-    for &c in topo.clients.iter() {
-        let mut t_create = r.range(0, 2_000_000);
-        let incarnations = if r.chance(0.3) { 2 } else { 1 };
+    // scripted endings (after the fault phases): a close from both sides in which one side's
+    // requests are lost and the other side's request arrives late
+    let phases_end = horizon;
+    let mut horizon = horizon;
+    let scripted: Vec<bool> = topo.clients.iter().map(|_| r.chance(0.2)).collect();
+    if scripted.iter().any(|s| *s) {
+        horizon += 50_000_000;
+    }
+    for (ci, &c) in topo.clients.iter().enumerate() {
+        // scripted clients connect on the clean tail of the last fault phase
+        let mut t_create = if scripted[ci] { phases_end - r.range(1_500_000, 3_000_000) } else { r.range(0, 2_000_000) };
+        let incarnations = if r.chance(0.3) && !scripted[ci] { 2 } else { 1 };
+        if scripted[ci] {
+            let t0 = phases_end + r.range(0, 2_000_000);
+            // usually before the silence timeout of the side that hears nothing any more
+            let to_us = |e: &crate::plan::EndpointSpec| match &e.kind {
+                EndpointKind::Client { cfg, .. } | EndpointKind::Server { cfg, .. } => cfg.active_timeout_ms * 1000,
+                _ => 20_000_000,
+            };
+            let quiet = to_us(&plan.endpoints[c]).min(to_us(&plan.endpoints[0]));
+            let options: Vec<u64> = [500_000u64, 1_900_000, 2_100_000, 2_500_000, 4_000_000, 12_000_000, 19_000_000].iter().cloned().filter(|o| *o + 300_000 < quiet || r.chance(0.2)).collect();
+            let tc = t0 + if options.is_empty() { 500_000 } else { *r.pick(&options) };
+            let server_first = r.chance(0.5);
+            let (first, second) = if server_first { ((0usize, Some(c)), (c, None)) } else { ((c, None), (0usize, Some(c))) };
+            // the first closer's Disconnect requests never arrive
+            let mut lossy = clean_rule(latency);
+            lossy.drop_types = 1 << crate::world::FRAME_DISC;
+            lossy.drop_types_p = 1.0;
+            let (lf, lt) = if server_first { (0, c) } else { (c, 0) };
+            plan.push(t0.saturating_sub(1000), 3, Op::Link { from: Some(lf), to: Some(lt), rule: lossy });
+            let now = r.chance(0.5);
+            plan.push(t0, r.u32() | 1, if now { Op::DisconnectNow { ep: first.0, to: first.1 } } else { Op::Disconnect { ep: first.0, to: first.1 } });
+            plan.push(tc, r.u32() | 1, if r.chance(0.5) { Op::DisconnectNow { ep: second.0, to: second.1 } } else { Op::Disconnect { ep: second.0, to: second.1 } });
+        }
         for inc in 0..incarnations {
             let life_end = if inc + 1 < incarnations { t_create + r.range(2_000_000, horizon / 2) } else { horizon };
             plan.push(t_create, 1, Op::Create { ep: c });
@@ -501,8 +546,8 @@ pub fn world_b_lifecycle(property: &str, scenario: &str, seed: u64, run: u64, th
             cad.steps(&mut r, &mut plan, c, t_create, life_end, 5000, true);
             // application calls at random times
             for _ in 0..r.range(2, 40) {
-                let t = r.range(t_create, life_end);
-                match r.below(12) {
+                let t = r.range(t_create, life_end.min(phases_end).max(t_create + 1));
+                match if scripted[ci] { r.range(5, 11) } else { r.below(12) } {
                     0 => plan.push(t, r.u32() | 1, Op::Disconnect { ep: c, to: None }),
                     1 => plan.push(t, r.u32() | 1, Op::DisconnectNow { ep: c, to: None }),
                     2 => plan.push(t, r.u32() | 1, Op::Disconnect { ep: 0, to: Some(c) }),
@@ -803,6 +848,16 @@ pub fn world_b_disconnect(property: &str, scenario: &str, seed: u64, run: u64, t
             plan.push(t, 0x4000_0000 + tag, Op::Send { ep: caller, to: caller_to, ch: r.below(4) as u8, mode: r.below(4) as u8, len: r.range(12, 4000) as u32, tag });
             tag += 1;
         }
+        // sometimes the last things queued are Reliable packets without payload (they add
+        // nothing to the send buffer's byte count)
+        if r.chance(0.3) {
+            for _ in 0..r.range(1, 4) {
+                let span = if r.chance(0.5) { 1 } else { 150_000 };
+                let t = t_call - r.below(span);
+                plan.push(t, 0x4000_0000 + tag, Op::Send { ep: caller, to: caller_to, ch: 9, mode: MODE_RELIABLE, len: 0, tag });
+                tag += 1;
+            }
+        }
         for _ in 0..r.range(0, 20) {
             let t = r.range(1_000_000, t_call + 5_000_000);
             plan.push(t, 0x4000_0000 + tag, Op::Send { ep: other, to: other_to, ch: r.below(4) as u8, mode: r.below(4) as u8, len: r.range(12, 2000) as u32, tag });
@@ -1017,12 +1072,22 @@ pub fn world_b_retry(property: &str, scenario: &str, seed: u64, run: u64, _thoro
             plan.push(0, 0, Op::Create { ep: 0 });
             plan.push(100, 3, Op::StepEvery { ep: 0, period_us: period_s, until_us: horizon });
             plan.push(1000, 1, Op::Create { ep: c });
+            // the handshake itself may have needed k retries (the first k SYNs or SYN-ACKs are
+            // lost): the later disconnect has its own, full budget
+            let k = if r.chance(0.5) { r.range(1, 7) } else { 0 };
+            if k > 0 {
+                let link = if r.chance(0.5) { format!("{}>{}", c, 0) } else { format!("{}>{}", 0, c) };
+                let m = plan.fates.entry(link).or_default();
+                for ord in 0..k {
+                    m.insert(ord, Fate::dropped());
+                }
+            }
             // sometimes very early: less than 2 s after the SYN, while handshake timers are still queued
-            let t_b = if r.chance(0.4) { r.range(200_000, 1_500_000) } else { r.range(2_000_000, 6_000_000) };
+            let t_b = k * 2_000_000 + if r.chance(0.4) { r.range(200_000, 1_500_000) } else { r.range(2_000_000, 6_000_000) };
             let mut b = clean_rule(latency);
             b.blackout = true;
             plan.push(t_b, 3, Op::Link { from: None, to: None, rule: b });
-            let t_call = t_b + if t_b < 2_000_000 { r.below(300_000) } else { r.below(3_000_000) };
+            let t_call = t_b + if t_b < k * 2_000_000 + 2_000_000 { r.below(300_000) } else { r.below(3_000_000) };
             if r.chance(0.5) {
                 plan.push(t_call, 0x6000_0000, Op::DisconnectNow { ep: c, to: None });
             } else {
